@@ -556,18 +556,22 @@ class WorkQueue:
             group_node = self._group_nodes.get(group)
             if group_node:
                 group_node.pending -= 1
-                if group in root_groups and not group_node.pending:
-                    (
-                        group_values_event,
-                        group_success_event,
-                        child_new_groups,
-                        child_new_streams,
-                    ) = self._finish_group_success(group, group_node)
-                    if group_values_event:
-                        group_events.append(group_values_event)
-                    group_events.append(group_success_event)
-                    new_groups.extend(child_new_groups)
-                    new_streams.extend(child_new_streams)
+        # finish groups only after all counters are up to date, so that a child
+        # group sharing this task with its parent is not promoted as pending
+        for group in task.groups:
+            group_node = self._group_nodes.get(group)
+            if group_node and group in root_groups and not group_node.pending:
+                (
+                    group_values_event,
+                    group_success_event,
+                    child_new_groups,
+                    child_new_streams,
+                ) = self._finish_group_success(group, group_node)
+                if group_values_event:
+                    group_events.append(group_values_event)
+                group_events.append(group_success_event)
+                new_groups.extend(child_new_groups)
+                new_streams.extend(child_new_streams)
 
         self._start_new_work(new_groups, new_streams)
         return group_events
